@@ -129,6 +129,7 @@ func main() {
 		fmt.Fprintln(os.Stderr, "unknown VERIF_PROP", prop)
 		os.Exit(2)
 	}
+	reportTieBroken(res, prop)
 	res.Write(f.Out)
 }
 
